@@ -154,7 +154,9 @@ def permanodeModtime (p : PN) : Option Int :=
 
 /-- Corpus.PermanodeTime (corpus.go:1143) for permanodes whose time-bearing attributes are
 `dateCreated` and `camliContent` (a plain file): dateCreated, else FileInfo.Time of the content file
-once it is indexed, else the date of the camliContent claim -/
+once it is indexed.  The documented last resort "camliContent claim set time" is dead code as
+written – the `ok` of pnCamliContent is overwritten by the later `t, ok = c.pnTimeAttr(…)` calls, so
+`if ok { return ccTime, true }` never fires – and the model follows the code. -/
 def permanodeTime (p : PN) : Option Int :=
   match p.dc with
   | some t => some t
@@ -164,7 +166,7 @@ def permanodeTime (p : PN) : Option Int :=
     | some c =>
       match c.indexed, c.fileTime with
       | true, some ft => some ft
-      | _, _ => some c.claimDate
+      | _, _ => none
 
 /-- Corpus.PermanodeAnyTime (corpus.go:1192): PermanodeTime, else the modtime -/
 def permanodeAnyTime (p : PN) : Option Int :=
